@@ -26,3 +26,4 @@ for l in open('known_findings.jsonl'):
 open('known_findings.jsonl','w').write('\n'.join(out)+'\n')
 print("flipped",n,"known record(s) to fixed")
 PY
+exit 0
